@@ -19,7 +19,7 @@ EXPLANATION = (
     "only where the order facts give day_submerged <= LagAer (strict guard before the integer increment), so it is >= 0. C04.e: the net-irrigation refill raises (or lowers) each compartment towards the threshold of its own layer - "
     "the per-layer threshold is recomputed from the compartment's own wilting point / field capacity at every layer change and the "
     "root-zone-average threshold computed before the loop cannot reach the refill (reaching definitions + the layer-change idiom) - "
-    "the structural half of the non-negativity of the net requirement. C04.f: every definition of the curve number reaching the retention formula S = 25400/cn - 254 is a clamp to at most 100, so S >= 0 and 0 <= runoff <= rain. C04.g (structural half of Es <= EsPot): soil_evaporation's demand ledger - remaining demand + actual evaporation is invariant from its definition to the return (linear template), and every stage potential is defined as min(remaining demand, .) or as a per-sub-step fraction of it. C04.h (structural half of Tr <= TrPot): the root-extraction loop's ledger - remaining demand + actual transpiration invariant through the loop (induction), and the per-compartment sink taken off the ledger has passed the cap against the remaining demand expressed as a water content of the same compartment (later definitions only lower it). C04.i (structural half of DeepPerc >= 0): every comparison in drainage that involves a field capacity uses the adjusted field capacity of the day; the plain value appears in arithmetic only. NOT decided: the numeric inequalities themselves, non-negativity of DeepPerc / CR / GwIn / Runoff / Es "
+    "the structural half of the non-negativity of the net requirement. C04.f: every definition of the curve number reaching the retention formula S = 25400/cn - 254 is a clamp to at most 100, so S >= 0 and 0 <= runoff <= rain. C04.g (structural half of Es <= EsPot): soil_evaporation's demand ledger - remaining demand + actual evaporation is invariant from its definition to the return (linear template), and every stage potential is defined as min(remaining demand, .) or as a per-sub-step fraction of it. C04.h (structural half of Tr <= TrPot): the root-extraction loop's ledger - remaining demand + actual transpiration invariant through the loop (induction), and the per-compartment sink taken off the ledger has passed the cap against the remaining demand expressed as a water content of the same compartment (later definitions only lower it). C04.i (structural half of DeepPerc >= 0): every comparison in drainage that involves a field capacity uses the adjusted field capacity of the day; the plain value appears in arithmetic only. C04.j = C03.h (the two evaporation extraction loops agree; without the clamp of negative available water the actual evaporation goes negative). NOT decided: the numeric inequalities themselves, non-negativity of DeepPerc / CR / GwIn / Runoff / Es "
     "(numeric, depend on run-time water contents).")
 
 
@@ -135,6 +135,8 @@ def run(chk, prog, tier):
     rule_g(chk, prog)
     rule_h(chk, prog)
     rule_i(chk, prog)
+    from ._siblings import evap_stage_agreement
+    evap_stage_agreement(chk, prog, "C04.j")
     chk.assume("A-1")
     chk.exhaustive = True
 
